@@ -23,32 +23,7 @@ RULE = ("cases = parameter sets of nasim.generate_scenario drawn from the docume
 BENCH_KEYS = ("num_hosts", "num_services", "num_os", "num_processes", "restrictiveness", "uniform", "alpha_H", "alpha_V", "lambda_V")
 
 
-class BudgetExceeded(BaseException):
-    pass
-
-
-def traced_call(fn, budget=LINE_BUDGET):
-    """Run fn() counting 'line' events in nasim/ frames; abort beyond budget."""
-    root = os.path.join(common.REPO, "nasim") + os.sep
-    count = [0]
-
-    def local(frame, event, arg):
-        if event == "line":
-            count[0] += 1
-            if count[0] > budget:
-                raise BudgetExceeded()
-        return local
-
-    def tracer(frame, event, arg):
-        if frame.f_code.co_filename.startswith(root):
-            return local
-        return None
-    old = sys.gettrace()
-    sys.settrace(tracer)
-    try:
-        return fn(), count[0]
-    finally:
-        sys.settrace(old)
+from .budget import BudgetExceeded, traced_call      # noqa: E402,F401
 
 
 def expected_subnets(H):
